@@ -123,21 +123,58 @@ def partial_bodies(ctx, program, o, r):
 
 
 def known_finding_reproducer(ctx):
-    """Recorded finding: an effect that needs an option is outside keys()."""
-    @dataset(effects=[Option("CB")])
-    def d(a=Option("A", 1)):
-        return a
+    """Recorded finding: an effect that needs an option is outside keys() - exercised cold and warm, with caching
+    on and switched off by either option spelling or by the context manager.  Only the exact recorded pattern
+    (keys ok, validate and evaluate both fail, and with the option supplied all three agree) is attributed to
+    the finding; any other disagreement - e.g. validate passing on a warm cache while evaluate fails - is not."""
+    import labrea.cache as lc
 
-    o = {"A": 2}
-    res = {op: observe(getattr(d, op), dict(o)) for op in ("validate", "keys", "evaluate")}
-    bits = {k: v[0] == "ok" for k, v in res.items()}
-    ctx.evaluations += 3
-    if len(set(bits.values())) != 1:
-        # neutralisation: with the option the effect needs, the three agree
-        res2 = {op: observe(getattr(d, op), {"A": 2, "CB": print}) for op in ("validate", "keys")}
-        mech = "effect-option-outside-keys" if all(v[0] == "ok" for v in res2.values()) and bits["keys"] and not bits["validate"] else None
-        ctx.violation("operations-disagree", f"dataset with an effect reading option CB, CB absent: validate {short(res['validate'], 60)} keys {short(res['keys'], 60)} evaluate {short(res['evaluate'], 60)}",
-                      {"mechanism": mech, "options": o})
+    def sink(v):
+        return None
+
+    modes = ["on", "DISABLED", "DISABLE", "context"]
+    for warm in (False, True):
+        for mode in modes:
+            @dataset(effects=[Option("CB")])
+            def d(a=Option("A", 1)):
+                return a
+
+            if warm:
+                d.evaluate({"A": 2, "CB": sink})
+            for cb_present in (False, True):
+                o = {"A": 2}
+                if cb_present:
+                    o["CB"] = sink
+                if mode == "DISABLED":
+                    o["LABREA"] = {"CACHE": {"DISABLED": True}}
+                elif mode == "DISABLE":
+                    o["LABREA"] = {"CACHE": {"DISABLE": True}}
+                res = {}
+                for op in ("validate", "keys", "evaluate"):
+                    if mode == "context":
+                        with lc.disabled():
+                            res[op] = observe(getattr(d, op), dict(o))
+                    else:
+                        res[op] = observe(getattr(d, op), dict(o))
+                bits = {k: v[0] == "ok" for k, v in res.items()}
+                ctx.evaluations += 3
+                ctx.count("effect_option_switch_cases")
+                served_from_cache = warm and mode == "on"
+                expected_ok = cb_present or served_from_cache  # a stored value needs neither validation nor effects
+                if len(set(bits.values())) == 1:
+                    if bits["evaluate"] != expected_ok:
+                        ctx.violation("operations-disagree", f"effect option {'present' if cb_present else 'absent'}, warm={warm}, cache {mode}: all three "
+                                      f"{'succeed' if bits['evaluate'] else 'fail'} unexpectedly", {"options": repr(o), "warm": warm, "mode": mode})
+                        return
+                    continue
+                mech = None
+                if not cb_present and bits["keys"] and not bits["validate"] and not bits["evaluate"]:
+                    mech = "effect-option-outside-keys"  # (neutralisation = the cb_present iteration of this loop agrees)
+                ctx.violation("operations-disagree", f"dataset with an effect reading option CB ({'present' if cb_present else 'absent'}), warm={warm}, cache {mode}: "
+                              f"validate {short(res['validate'], 50)} keys {short(res['keys'], 50)} evaluate {short(res['evaluate'], 50)}",
+                              {"mechanism": mech, "options": repr(o), "warm": warm, "mode": mode})
+                if mech is None:
+                    return
 
 
 def coalesce_reproducer(ctx):
